@@ -362,6 +362,7 @@ pub fn run(tier: &Tier) -> i32 {
             outs.push((format!("hash order as it comes, run {}", r), run_cli(src, "", &CliOpts::default())));
         }
         orders_run.fetch_add(outs.len() as u64, Ordering::Relaxed);
+        c.outcome(&format!("order runs: {}", outs[0].1.out().lines().next().unwrap_or("").split(' ').take(2).collect::<Vec<_>>().join(" ")));
         c.add_exec(outs.len() as u64);
         let first = outs[0].1.clone();
         distinct_msgs.lock().unwrap().insert(first.out().lines().next().unwrap_or("").to_string());
@@ -481,6 +482,9 @@ pub fn run(tier: &Tier) -> i32 {
                     }
                 }
                 inter_n.fetch_add(1, Ordering::Relaxed);
+                if li == 0 && ib % 97 == 0 {
+                    c.outcome(&format!("interleaved: {:?}", xa.last()));
+                }
                 let fa = finalize(&vma, &ca, xa);
                 let fb = finalize(&vmb, &cb, xb);
                 let mut bad = None;
